@@ -989,10 +989,11 @@ def linked_shards_probe(ctx, rep, mine):
 
 def refused_removal_probe(ctx, rep, mine):
     """delete / clean while ONE removal is refused by the file system (EACCES, EPERM, EROFS on one object - the first, second, ...
-    removal of the command): the backend may retry it or the command may fail, but what is still listed afterwards must still have
-    all its chunks, and a command that reports success has done its job."""
+    removal of the command; in the last trial the snapshot object itself can never be removed - a write-protected or retention-locked
+    object): the backend may retry it or the command may fail, but what is still listed afterwards must still have all its chunks, and
+    a command that reports success has done its job."""
     rng = random.Random(ctx.rng.randint(0, 2 ** 31))
-    for trial in range(3):
+    for trial in range(4):
         wd = Path(ctx.scratch) / f'cli-refused-{trial}'
         shutil.rmtree(wd, ignore_errors=True)
         wd.mkdir(parents=True)
@@ -1006,13 +1007,15 @@ def refused_removal_probe(ctx, rep, mine):
                 args, files = sc.make_files(u)
                 sc.op_snapshot(u, args, files)
             victim = sorted(sc.snaps)[0]
-            inject = [{'fn': 'unlink', 'k': trial, 'when': 'before', 'action': ['EACCES', 'EPERM', 'EROFS'][trial]}]
+            inject = [{'fn': 'unlink', 'k': trial, 'when': 'before', 'action': ['EACCES', 'EPERM', 'EROFS'][trial]}] if trial < 3 else \
+                [{'fn': 'unlink', 'path_contains': os.sep + 'snapshots' + os.sep, 'action': 'EPERM'}]
             before, _ = sc.dep.disk()
             res = sc.dep.run('delete', '--yes', victim, user=u, inject=inject)
             after, _ = sc.dep.disk()
             rep.case(('refused-removal', trial, res.rc), nontrivial=True)
             rep.count('refused_removal_probe')
-            what = f'delete while removal #{trial} is refused once ({inject[0]["action"]})'
+            what = f'delete while removal #{trial} is refused once ({inject[0]["action"]})' if trial < 3 else \
+                'delete while the removal of the snapshot object is refused for good (EPERM)'
             sc.restorable_check(what, after)
             if res.ok:
                 if sc.snaps[victim]['path'] in after:
@@ -1062,6 +1065,11 @@ def scan_fault_probe(ctx, rep, mine):
     master = sc.dep.repo
     jobs = [(command, k, errno_name) for command in ('clean', 'delete') for k in range(14)
             for errno_name in (('EACCES', 'EIO') if k % 2 == 0 else ('EIO',))]
+    # ... or fails in the middle, after it has produced one entry
+    jobs += [(command, k, 'mid-EIO') for command in ('clean', 'delete') for k in range(14)]
+    # ... or one snapshot object cannot be read, whatever is tried (this client has no cached copy of it)
+    kept = sorted(sc.present(base))[1:]
+    jobs += [(command, sc.snaps[n]['path'], 'unreadable') for command in ('clean', 'delete') for n in kept[:2]]
 
     def one(job):
         command, k, errno_name = job
@@ -1071,6 +1079,10 @@ def scan_fault_probe(ctx, rep, mine):
         dep2.__dict__.update(sc.dep.__dict__)
         dep2.repo, dep2.log = copy, []
         inject = [{'fn': 'scandir', 'k': k, 'when': 'before', 'action': errno_name}]
+        if errno_name == 'mid-EIO':
+            inject = [{'fn': 'scandir_iter', 'k': k, 'after': 1, 'action': 'EIO'}]
+        elif errno_name == 'unreadable':
+            inject = [{'fn': 'read', 'path_contains': k.replace('/', os.sep), 'action': 'EIO'}]
         res = dep2.run(*((command,) if command == 'clean' else (command, '--yes', victim)), user=u, inject=inject)
         after, _ = dep2.disk()
         shutil.rmtree(copy, ignore_errors=True)
@@ -1080,11 +1092,21 @@ def scan_fault_probe(ctx, rep, mine):
     n = len(results)
     for (command, k, errno_name), res, after in results:
         what = f'{command} while directory scan #{k} fails once with {errno_name}'
+        if errno_name == 'mid-EIO':
+            what = f'{command} while directory scan #{k} fails with EIO after its first entry'
+        elif errno_name == 'unreadable':
+            what = f'{command} while the snapshot object {k[:22]}.. cannot be read (EIO for good)'
         if res.rc == -100:
             sc.v('hang', what + ': the command does not end')
         sc.restorable_check(what, after)
         if res.ok and command == 'clean':
             sc.exact_check(what, u, after)
+        if res.ok and command == 'delete':
+            if sc.snaps[victim]['path'] in after:
+                sc.v('gc_incomplete', f'{what}: the command exits with status 0 but the snapshot object is still there')
+            only = sc.snaps[victim]['chunk_paths'] - sc.referenced(after)
+            if only & set(after):
+                sc.v('gc_incomplete', f'{what}: the command exits with status 0 but left {len(only & set(after))} chunk(s) that only the deleted snapshot referenced')
     rep.case(('scan-fault', n), nontrivial=True)
     rep.count('scan_fault_probe_commands', n)
     for v in sc.viol:
